@@ -286,6 +286,301 @@ def gen_hash(report):
 
 
 # ----------------------------------------------------------------------------------------------
+# versions (autosarversion.rs)
+# ----------------------------------------------------------------------------------------------
+
+def bytes_list(s):
+    return "[" + ", ".join(str(b) for b in s.encode("utf-8")) + "]"
+
+
+def read_versions():
+    text = src(f"{SPECSRC}/autosarversion.rs")
+    m = re.search(r"pub enum AutosarVersion \{(.*?)\n\}", text, re.S)
+    need(m, "autosarversion.rs: enum not found")
+    enum = []
+    for line in m.group(1).splitlines():
+        line = line.strip()
+        if not line or line.startswith("///") or line.startswith("#["):
+            continue
+        mm = re.fullmatch(r"(\w+)\s*=\s*(0x[0-9a-fA-F]+|\d+),", line)
+        need(mm, f"autosarversion.rs: unexpected enum line {line!r}")
+        enum.append((mm.group(1), int(mm.group(2), 0)))
+    need(len(enum) > 0, "autosarversion.rs: no versions")
+    val = dict(enum)
+    need(len(val) == len(enum), "autosarversion.rs: duplicate version identifier")
+
+    def arms(fn_pat, arm_pat, what):
+        mf = re.search(fn_pat, text, re.S)
+        need(mf, f"autosarversion.rs: {what} not found")
+        return re.findall(arm_pat, mf.group(1)), mf.group(1)
+
+    fn_arms, _ = arms(r"pub fn filename\(&self\) -> &'static str \{\s*match self \{(.*?)\n        \}", r'Self::(\w+) => "([^"]*)",', "filename()")
+    need(len(fn_arms) == len(enum), f"autosarversion.rs: filename() has {len(fn_arms)} arms for {len(enum)} versions")
+    fs_arms, fs_body = arms(r"fn from_str\(input: &str\) -> Result<Self, Self::Err> \{\s*match input \{(.*?)\n        \}", r'"([^"]*)" => Ok\(Self::(\w+)\),', "from_str()")
+    need(re.search(r"_ => Err\(ParseAutosarVersionError\)", fs_body), "autosarversion.rs: from_str default arm missing")
+    fu_arms, fu_body = arms(r"fn from_u64\(n: u64\) -> Option<Self> \{\s*match n \{(.*?)\n        \}", r"(0x[0-9a-fA-F]+|\d+) => Some\(Self::(\w+)\),", "from_u64()")
+    need(re.search(r"_ => None", fu_body), "autosarversion.rs: from_u64 default arm missing")
+    ml = re.search(r"pub const LATEST: AutosarVersion = AutosarVersion::(\w+);", text)
+    need(ml, "autosarversion.rs: LATEST not found")
+    for ident, _ in fn_arms:
+        need(ident in val, f"autosarversion.rs: filename() arm for unknown {ident}")
+    for _, ident in fs_arms + fu_arms:
+        need(ident in val, f"autosarversion.rs: arm returns unknown {ident}")
+    return {"enum": enum, "filename": [(val[i], s) for i, s in fn_arms], "from_str": [(s, val[i]) for s, i in fs_arms],
+            "from_u64": [(int(n, 0), val[i]) for n, i in fu_arms], "latest": val[ml.group(1)], "idents": [i for i, _ in enum]}
+
+
+def gen_versions(report):
+    v = read_versions()
+    o = ["-- GENERATED by translator/gen.py from autosar-data-specification/src/autosarversion.rs",
+         "import AutosarVerif.Model.Versions", "namespace AV.Gen",
+         "def versionTable : VersionTable := {",
+         "  values := [" + ", ".join(hex(x) for _, x in v["enum"]) + "],",
+         "  filename := [" + ",\n    ".join(f"({hex(x)}, {bytes_list(s)})" for x, s in v["filename"]) + "],",
+         "  fromStr := [" + ",\n    ".join(f"({bytes_list(s)}, {hex(x)})" for s, x in v["from_str"]) + "],",
+         "  fromU64 := [" + ", ".join(f"({hex(n)}, {hex(x)})" for n, x in v["from_u64"]) + "],",
+         f"  latest := {hex(v['latest'])} }}",
+         "theorem versionTable_ok : versionTable.check = true := by decide +kernel",
+         "end AV.Gen"]
+    write_if_changed("Versions.lean", "\n".join(o) + "\n")
+    report["versions"] = {"n": len(v["enum"]), "sha256": sha(f"{SPECSRC}/autosarversion.rs"),
+                          "idents": v["idents"], "values": [x for _, x in v["enum"]]}
+
+
+# ----------------------------------------------------------------------------------------------
+# specification arrays (specification.rs)
+# ----------------------------------------------------------------------------------------------
+
+MODES = {"Sequence": 0, "Choice": 1, "Bag": 2, "Characters": 3, "Mixed": 4}
+MULTS = {"ZeroOrOne": 0, "One": 1, "Any": 2}
+RESTR = {"NotRestricted": 0, "ClassicPlatform": 1, "AdaptivePlatform": 2}
+
+
+def array_body(text, name, fname="specification.rs"):
+    m = re.search(r"pub\(crate\) static " + name + r": \[([^;\]]+(?:\([^)]*\))?[^;\]]*); (\d+)\] = \[\n(.*?)\n\];\n", text, re.S)
+    need(m, f"{fname}: array {name} not found")
+    return int(m.group(2)), m.group(3)
+
+
+def packrec(records, width):
+    n = 0
+    for i, r in enumerate(records):
+        need(0 <= r < (1 << width), f"record {i} does not fit {width} bits")
+        n |= r << (width * i)
+    return n
+
+
+def read_spec(names):
+    text = src(f"{SPECSRC}/specification.rs")
+    elem_id = {ident: d for ident, d in names["Elem"]["discr"]}
+    attr_id = {ident: d for ident, d in names["Attr"]["discr"]}
+    enum_id = {ident: d for ident, d in names["Enum"]["discr"]}
+    spec = {}
+    # DATATYPES
+    n, body = array_body(text, "DATATYPES")
+    rows = re.findall(r"ElementSpec \{sub_elements: \((\d+), (\d+)\), sub_element_ver: (\d+), attributes: \((\d+), (\d+)\), "
+                      r"attributes_ver: (\d+), character_data: (None|Some\((\d+)\)), mode: ContentMode::(\w+), ref_info: \((\d+), (\d+)\)\}", body)
+    need(len(rows) == n, f"specification.rs: DATATYPES declares {n}, read {len(rows)}")
+    dts = []
+    for r in rows:
+        ss, se, sv, as_, ae, av, cd, cdn, mode, rs, re_ = r
+        need(mode in MODES, f"specification.rs: unknown ContentMode {mode}")
+        dts.append(dict(ss=int(ss), se=int(se), sv=int(sv), as_=int(as_), ae=int(ae), av=int(av),
+                        cd=(None if cd == "None" else int(cdn)), mode=MODES[mode], rs=int(rs), re=int(re_)))
+    spec["datatypes"] = dts
+    # ELEMENTS
+    n, body = array_body(text, "ELEMENTS")
+    rows = re.findall(r"element!\((\w+), (\d+), (\w+), (true|false), (0x[0-9A-Fa-f]+|\d+), (\w+), (?:None|Some\(\d+\))\)", body)
+    need(len(rows) == n, f"specification.rs: ELEMENTS declares {n}, read {len(rows)}")
+    els = []
+    for nm, et, mult, ordered, split, restr in rows:
+        need(nm in elem_id, f"specification.rs: ELEMENTS uses unknown ElementName::{nm}")
+        need(mult in MULTS and restr in RESTR, "specification.rs: unknown multiplicity / restriction")
+        els.append(dict(name=elem_id[nm], et=int(et), mult=MULTS[mult], ordered=(ordered == "true"),
+                        split=int(split, 0), restr=RESTR[restr]))
+    spec["elements"] = els
+    # SUBELEMENTS
+    n, body = array_body(text, "SUBELEMENTS")
+    rows = re.findall(r"\b([eg])!\((\d+)\)", body)
+    need(len(rows) == n, f"specification.rs: SUBELEMENTS declares {n}, read {len(rows)}")
+    spec["subelements"] = [(k == "g", int(i)) for k, i in rows]
+    # ATTRIBUTES
+    n, body = array_body(text, "ATTRIBUTES")
+    rows = re.findall(r"\(AttributeName::(\w+), (\d+), (true|false)\)", body)
+    need(len(rows) == n, f"specification.rs: ATTRIBUTES declares {n}, read {len(rows)}")
+    for nm, _, _ in rows:
+        need(nm in attr_id, f"specification.rs: ATTRIBUTES uses unknown AttributeName::{nm}")
+    spec["attributes"] = [(attr_id[nm], int(cd), rq == "true") for nm, cd, rq in rows]
+    # VERSION_INFO
+    n, body = array_body(text, "VERSION_INFO")
+    rows = re.findall(r"0x[0-9a-fA-F]+|\b\d+\b", body)
+    need(len(rows) == n, f"specification.rs: VERSION_INFO declares {n}, read {len(rows)}")
+    spec["verinfo"] = [int(x, 0) for x in rows]
+    # REF_ITEMS
+    n, body = array_body(text, "REF_ITEMS")
+    rows = re.findall(r"EnumItem::(\w+)", body)
+    need(len(rows) == n, f"specification.rs: REF_ITEMS declares {n}, read {len(rows)}")
+    for nm in rows:
+        need(nm in enum_id, f"specification.rs: REF_ITEMS uses unknown EnumItem::{nm}")
+    spec["refitems"] = [enum_id[nm] for nm in rows]
+    # CHARACTER_DATA
+    n, body = array_body(text, "CHARACTER_DATA")
+    cds = []
+    regexes = {}
+    for line in body.splitlines():
+        line = line.strip().rstrip(",")
+        if not line:
+            continue
+        need(line.startswith("CharacterDataSpec::"), f"specification.rs: unexpected CHARACTER_DATA line {line[:60]!r}")
+        rest = line[len("CharacterDataSpec::"):]
+        if rest.startswith("Enum"):
+            items = re.findall(r"\(EnumItem::(\w+), (0x[0-9a-fA-F]+|\d+)\)", rest)
+            need(re.fullmatch(r"Enum\{items: &\[(\(EnumItem::\w+, (0x[0-9a-fA-F]+|\d+)\)(, )?)*\]\}", rest), "specification.rs: bad Enum spec")
+            for nm, _ in items:
+                need(nm in enum_id, f"specification.rs: CHARACTER_DATA uses unknown EnumItem::{nm}")
+            cds.append(("enum", [(enum_id[nm], int(mk, 0)) for nm, mk in items]))
+        elif rest.startswith("Pattern"):
+            mm = re.fullmatch(r'Pattern\{check_fn: validate_regex_(\d+), regex: r(#?)"(.*)"\2, max_length: (None|Some\((\d+)\))\}', rest)
+            need(mm, f"specification.rs: bad Pattern spec {rest[:80]!r}")
+            k = int(mm.group(1))
+            rx = mm.group(3)
+            ml = None if mm.group(4) == "None" else int(mm.group(5))
+            if k in regexes:
+                need(regexes[k] == rx, f"specification.rs: validate_regex_{k} is used with two different regex strings")
+            regexes[k] = rx
+            cds.append(("pattern", k, ml))
+        elif rest.startswith("String"):
+            mm = re.fullmatch(r"String\{preserve_whitespace: (true|false), max_length: (None|Some\((\d+)\))\}", rest)
+            need(mm, "specification.rs: bad String spec")
+            cds.append(("string", mm.group(1) == "true", None if mm.group(2) == "None" else int(mm.group(3))))
+        elif rest == "UnsignedInteger":
+            cds.append(("uint",))
+        elif rest in ("Float", "Double"):
+            cds.append(("float",))
+        else:
+            need(False, f"specification.rs: unknown CharacterDataSpec {rest[:40]!r}")
+    need(len(cds) == n, f"specification.rs: CHARACTER_DATA declares {n}, read {len(cds)}")
+    spec["cdata"] = cds
+    spec["regexes"] = regexes
+    m = re.search(r"pub\(crate\) static REFERENCE_TYPE_IDX: u16 = (\d+);", text)
+    need(m, "specification.rs: REFERENCE_TYPE_IDX not found")
+    spec["ref_type_idx"] = int(m.group(1))
+    m = re.search(r"pub\(crate\) static AUTOSAR_ELEMENT: u16 = (\d+);", text)
+    need(m, "specification.rs: AUTOSAR_ELEMENT not found")
+    spec["root"] = int(m.group(1))
+    # range validation of the reading (the Lean side re-checks the same facts as `realSpec_wf`)
+    nd, ns, na, nv, nc, nr, ne = len(dts), len(spec["subelements"]), len(spec["attributes"]), len(spec["verinfo"]), len(cds), len(spec["refitems"]), len(els)
+    for i, d in enumerate(dts):
+        need(d["ss"] <= d["se"] <= ns and d["as_"] <= d["ae"] <= na and d["rs"] <= d["re"] <= nr, f"specification.rs: DATATYPES[{i}] range out of bounds")
+        need(d["cd"] is None or d["cd"] < nc, f"specification.rs: DATATYPES[{i}] character_data out of range")
+    for i, (g, idx) in enumerate(spec["subelements"]):
+        need(idx < (nd if g else ne), f"specification.rs: SUBELEMENTS[{i}] index out of range")
+    for i, e in enumerate(els):
+        need(e["et"] < nd, f"specification.rs: ELEMENTS[{i}] elemtype out of range")
+    need(spec["ref_type_idx"] < nc and spec["root"] < ne, "specification.rs: REFERENCE_TYPE_IDX / AUTOSAR_ELEMENT out of range")
+    return spec
+
+
+def group_depth(spec):
+    """maximal nesting of groups (python side only chooses the fuel; Lean checks it: depthOk)"""
+    import functools
+    dts, subs = spec["datatypes"], spec["subelements"]
+
+    @functools.lru_cache(maxsize=None)
+    def depth(t, guard=0):
+        d = 0
+        for (g, idx) in subs[dts[t]["ss"]:dts[t]["se"]]:
+            if g:
+                d = max(d, 1 + depth(idx))
+        return d
+    sys.setrecursionlimit(10000)
+    try:
+        return max(depth(t) for t in range(len(dts)))
+    except RecursionError:
+        raise ReadError("specification.rs: groups are nested cyclically")
+
+
+def lean_cspec(c):
+    if c[0] == "enum":
+        return ".enum [" + ", ".join(f"({i}, {hex(m)})" for i, m in c[1]) + "]"
+    if c[0] == "pattern":
+        return f".pattern {c[1]} " + ("none" if c[2] is None else f"(some {c[2]})")
+    if c[0] == "string":
+        return f".string {'true' if c[1] else 'false'} " + ("none" if c[2] is None else f"(some {c[2]})")
+    return "." + c[0]
+
+
+def gen_spec(report):
+    names = {}
+    for fname, enum, short in [("elementname.rs", "ElementName", "Elem"), ("attributename.rs", "AttributeName", "Attr"), ("enumitem.rs", "EnumItem", "Enum")]:
+        names[short] = read_name_table(fname, enum)
+    spec = read_spec(names)
+    dts = spec["datatypes"]
+    dt_recs = [d["ss"] | d["se"] << 16 | d["sv"] << 32 | d["as_"] << 48 | d["ae"] << 64 | d["av"] << 80
+               | (0 if d["cd"] is None else d["cd"] + 1) << 96 | d["mode"] << 128 | d["rs"] << 144 | d["re"] << 160 for d in dts]
+    el_recs = [e["name"] | e["et"] << 16 | e["mult"] << 32 | (1 if e["ordered"] else 0) << 34 | e["restr"] << 35 | e["split"] << 40
+               for e in spec["elements"]]
+    sub_recs = [idx * 2 + (1 if g else 0) for g, idx in spec["subelements"]]
+    at_recs = [nm | cd << 16 | (1 if rq else 0) << 32 for nm, cd, rq in spec["attributes"]]
+    depth = group_depth(spec)
+    ident = {i: d for i, d in names["Elem"]["discr"]}
+    aident = {i: d for i, d in names["Attr"]["discr"]}
+    need("ShortName" in ident and "Dest" in aident, "ElementName::ShortName / AttributeName::Dest not found")
+    o = ["-- GENERATED by translator/gen.py from autosar-data-specification/src/specification.rs -- do not edit",
+         "import AutosarVerif.Model.SpecPacked", "set_option maxRecDepth 1000000", "namespace AV.Gen.SpecData",
+         f"def datatypes : Nat := {hex(packrec(dt_recs, 176))}",
+         f"def elements : Nat := {hex(packrec(el_recs, 80))}",
+         f"def subelements : Nat := {hex(packrec(sub_recs, 32))}",
+         f"def attributes : Nat := {hex(packrec(at_recs, 40))}",
+         f"def verinfo : Nat := {hex(packrec(spec['verinfo'], 32))}",
+         f"def refitems : Nat := {hex(packrec(spec['refitems'], 16))}"]
+    cds = spec["cdata"]
+    CC = 64
+    nch = (len(cds) + CC - 1) // CC
+    for k in range(nch):
+        o.append(f"def cspecChunk{k} : List CSpec := [\n  " + ",\n  ".join(lean_cspec(c) for c in cds[k * CC:(k + 1) * CC]) + "]")
+    o.append("def cspecs : List (List CSpec) := [" + ", ".join(f"cspecChunk{k}" for k in range(nch)) + "]")
+    o.append("def packed : PackedSpec := {")
+    o.append(f"  nTypes := {len(dts)}, nDefs := {len(spec['elements'])}, nSubs := {len(sub_recs)}, nAttrs := {len(at_recs)},")
+    o.append(f"  nVer := {len(spec['verinfo'])}, nCData := {len(cds)}, nRefItems := {len(spec['refitems'])},")
+    o.append("  datatypes := datatypes, elements := elements, subelements := subelements, attributes := attributes,")
+    o.append(f"  verinfo := verinfo, refitems := refitems, cspecs := cspecs, cspecChunk := {CC},")
+    o.append(f"  refTypeIdx := {spec['ref_type_idx']}, rootDef := {spec['root']}, depth := {depth},")
+    o.append(f"  nmShortName := {ident['ShortName']}, atDest := {aident['Dest']} }}")
+    o.append("end AV.Gen.SpecData")
+    o.append("namespace AV.Gen")
+    o.append("/-- the specification of the current working tree -/")
+    o.append("def realSpec : Spec := SpecData.packed.toSpec")
+    o.append("end AV.Gen")
+    write_if_changed("SpecData.lean", "\n".join(o) + "\n")
+    o = ["-- GENERATED by translator/gen.py -- regenerated well-formedness obligations for the specification tables",
+         "import AutosarVerif.Gen.SpecData", "namespace AV.Gen",
+         "theorem realSpec_rangesOk : SpecData.packed.rangesOk = true := by decide +kernel",
+         "theorem realSpec_depthOk : SpecData.packed.allDepthOk = true := by decide +kernel",
+         "end AV.Gen"]
+    write_if_changed("SpecWf.lean", "\n".join(o) + "\n")
+    # regex strings (C19) — the text is parsed in Lean
+    rx = spec["regexes"]
+    o = ["-- GENERATED by translator/gen.py -- regex strings published in specification.rs (Pattern{regex: r\"...\"})",
+         "namespace AV.Gen", "/-- (k, bytes of the regex text of validate_regex_k, max_length of its first use) -/",
+         "def regexStrings : List (Nat × List Nat) := ["]
+    o.append(",\n".join(f"  ({k}, {bytes_list(rx[k])})  -- {rx[k]}" if False else f"  ({k}, {bytes_list(rx[k])})" for k in sorted(rx)))
+    o.append("]")
+    o.append("end AV.Gen")
+    write_if_changed("RegexStrings.lean", "\n".join(o) + "\n")
+    # side table for the harness and the checker: identifiers
+    side = {"elem_idents": [i for i, _ in sorted(names["Elem"]["discr"], key=lambda x: x[1])],
+            "attr_idents": [i for i, _ in sorted(names["Attr"]["discr"], key=lambda x: x[1])],
+            "enum_idents": [i for i, _ in sorted(names["Enum"]["discr"], key=lambda x: x[1])],
+            "regexes": {str(k): rx[k] for k in sorted(rx)}, "depth": depth}
+    with open(os.path.join(OUT, "side.json"), "w") as f:
+        json.dump(side, f)
+    report["spec"] = {"sha256": sha(f"{SPECSRC}/specification.rs"), "datatypes": len(dts), "elements": len(spec["elements"]),
+                      "subelements": len(sub_recs), "attributes": len(at_recs), "verinfo": len(spec["verinfo"]),
+                      "cdata": len(cds), "refitems": len(spec["refitems"]), "group_depth": depth, "regexes": len(rx)}
+
+
+# ----------------------------------------------------------------------------------------------
 
 PARTS = {}
 
@@ -328,6 +623,8 @@ def main():
 
 PARTS["hash"] = gen_hash
 PARTS["names"] = gen_names
+PARTS["versions"] = gen_versions
+PARTS["spec"] = gen_spec
 
 if __name__ == "__main__":
     main()
